@@ -936,8 +936,8 @@ class mulgrid(object):
 
     def get_right_justified_names(self):
         """Returns True if character part of block names are right-justified."""
-        return all([(blkname[0:3] == blkname[0:3].strip().rjust(3)) for
-                    blkname in self.block_name_list])
+        return all([(name == name.strip().rjust(self.colname_length)) for name in
+                    [self.column_name(blkname) for blkname in self.block_name_list]])
     right_justified_names = property(get_right_justified_names)
 
     def new_node_name(self, istart = 0, justfn = str.rjust, chars = ascii_lowercase,
